@@ -6,6 +6,21 @@ ROOT = os.path.dirname(os.path.dirname(os.path.abspath(__file__)))
 
 # id -> (level category, technique, level text, level note, design ref)
 CHECKS = {
+ "C21": ("exploration",
+         "stateful / model-based property testing: operation histories decoded from proptest byte tapes, interpreted against the real file system and against the model expected_output = F(current text) (F = memoised forced build in a separate directory); oracle = byte equality with F, inode+ns-mtime identity for already-current outputs, absence of output after a failed build; tape shrinking of failing histories",
+         "Generated-input search over histories of <= 25 operations on 1-3 grammar files (edit, revert, touch, introduce/remove error, build through the CLI and the Configuration API in 7 modes with in-source / flat / mirrored output locations, forced or not, delete output, 6 version-line and 8 hash-line corruptions, truncation inside the header, foreign complete output, output mtime older/newer). Invariant checked after every build step. 500 histories (~3000 builds) quick, 12000 thorough.",
+         "Trusts a forced CLI build as the model F and the visiting order of process_dir (sorted by name, depth first). Hand edits below an intact header, whitespace-only header changes and files behind an aborted build are outside the contract and not judged (counted in evidence).",
+         "DESIGN.md section 3, C21"),
+ "C22": ("fault_enumeration",
+         "fault enumeration with an LD_PRELOAD shim (faultinj/faultinj.c: SIGKILL after k bytes written to regular files, SIGKILL before the K-th unlink/create/write/rename/mkdir, or ENOSPC at byte k) plus property-based (proptest byte tape) generation of sequences of 1-2 crashed builds; oracle = after one normal non-forced build the .rs and the report equal a forced reference build byte for byte; shim cross-checked against kernel RLIMIT_FSIZE",
+         "Every crash point of the build of small grammars: quick = every byte offset in the first 256 and last 64 bytes of each written file and every 61st between, every file-system operation boundary, a sparser sweep of write errors, on 4 scenarios (with/without --report, in-source / -o, output absent / current / stale beforehand) + 400 generated crash sequences over all 36 scenarios; thorough = all byte offsets of the 4 scenarios, the sampled sweep on all 36, 8000 sequences.",
+         "Crashes are process kills and failing writes; power loss (lost page cache, reordered metadata) is not modelled. All builds of a case use the same flags and grammar text. Currently fails on the pinned tree (DESIGN finding F1); silent with proposed_fixes/C22-atomic-output.diff applied.",
+         "DESIGN.md section 3, C22"),
+ "C23": ("exploration",
+         "property-based testing: random directory trees + driver configurations decoded from proptest byte tapes, each run twice; oracle = independent path model written from the property statement (own symlink-following directory walker + documented output-path rule), content compared with a forced reference build, rerun directives compared with the processed set; tape shrinking",
+         "Generated-input search over trees (<= 9 files, depth <= 4; leading / nested / repeated src; dotted, hidden, Unicode and whitespace names; non-.lalrpop files; directories named *.lalrpop; file and directory symlinks, dangling symlinks, an outside directory) x {CLI +-o, process_file, process_dir with set_out_dir / OUT_DIR / neither, set_in_dir+process, use_cargo_dir_conventions, generate_in_source_tree, conflicting set_in_dir} x emit_rerun_directives, with relative, dotted, slash-terminated and absolute spellings of directories. 900 cases quick, 20000 thorough.",
+         "Only UTF-8 names, no symlink loops, the walk root exists. When a whitespace name aborts a walk the model expects exactly the grammars that sort before it to be processed. generate_in_source_tree is judged by the statement's formula (out_dir = '.'), not by its doc comment.",
+         "DESIGN.md section 3, C23"),
  "C28": ("exploration",
          "property-based testing (proptest byte tapes) against a field-wise reference model and a reference formatter",
          "Generated-input search over all five ParseError variants with small location/token/error domains and expected lists of 0..6 strings; every helper is compared with an independently written reference (map_* field-wise incl. call multiset, composition/commutation laws, Display, From). 2e4 cases quick, 1e6 thorough, proptest shrinking.",
